@@ -7,7 +7,7 @@
 From Coq Require Import NArith Bool List.
 From RS.Gen Require Import Prelude GenConsts.
 From RS.Model Require Import Field Sched Codec Machine Admissible.
-From RS.Proofs Require Import MachineFacts.
+From RS.Proofs Require Import MachineFacts OneShot.
 Import ListNotations.
 Local Open Scope N_scope.
 
@@ -59,6 +59,15 @@ Proof.
     inversion E; subst; cbn. exact Hi.
 Qed.
 Print Assumptions C10_decode_bad_index.
+
+(* every error of the one-shot decode() is a member of the set of errors that truthfully
+   describe a violated precondition of the given input (Admissible.adm_onedec): an unsupported
+   configuration, an empty input, an invalid size, an out-of-range or repeated index, a shard of
+   different length, or too few distinct valid shards - for ALL argument tuples *)
+Theorem C10_decode_truthful : forall junk ep K R orig rec e,
+  oneshot_decode junk ep K R orig rec = RError e -> In e (adm_onedec K R orig rec).
+Proof. exact oneshot_decode_truthful. Qed.
+Print Assumptions C10_decode_truthful.
 
 Example C10_no_recovery :
   let j := fun _ _ _ : N => 0 in
